@@ -11,6 +11,19 @@ Import ListNotations.
 Definition log_wf (c : hcfg) (db : list hrec) : Prop :=
   Forall (fun r => length (r_tracked r) = length (c_tracked c)) db.
 
+(* ---------------------------------------------------------------- NewMemory *)
+
+(* the installed configuration tracks only states the machine knows (whatever
+   order ParseStates picks), at least one, and keeps MaxRecords >= 1 - the
+   hypothesis of the log theorems.  (Before the ParseStates fix an unknown name
+   survived next to a duplicate: corpus/C17/unknown_state_tracked.json.) *)
+Theorem new_memory_well_formed :
+  forall (n : nat) (order : list nat) (w : rawcfg) (c : hcfg),
+    new_memory n order w = Some c ->
+    Forall (fun s => s < n) (c_tracked c) /\ c_tracked c <> [] /\ 1 <= c_max c.
+Proof. exact C17Proofs.new_memory_wf_lemma. Qed.
+Print Assumptions new_memory_well_formed.
+
 (* ---------------------------------------------------------------- matching *)
 
 (* the two loops of TransitionEnd compute matches_spec *)
